@@ -112,7 +112,11 @@ func genC14(g *gen) {
 	}
 	g.note("Dilithium Verify / Open: never refuse, never fault")
 	dpk := g.bytes(2592)
-	for i := 0; i < 60; i++ {
+	nd := 60
+	if g.thorough {
+		nd = 480
+	}
+	for i := 0; i < nd; i++ {
 		s := g.bytes(4595)
 		hoff := 32 + 7*640
 		switch i % 6 {
@@ -152,7 +156,15 @@ func genC14(g *gen) {
 	}
 	g.note("mnemonic decoding of arbitrary strings")
 	var strs []string
-	for i := 0; i < 40; i++ {
+	ns := 40
+	if g.thorough {
+		ns = 4000
+	}
+	// tokens around the ends of the sorted word list and with non-ASCII bytes, in phrases of even length
+	for _, w := range []string{"zurich", "zuricha", "zzz", "{", "aaaa", "A", "aback\x00", "\xff\xfe", "école", "aback\t"} {
+		strs = append(strs, w+" aback", "aback "+w, w+" "+w)
+	}
+	for i := 0; i < ns; i++ {
 		n := g.rng.Intn(400)
 		b := g.bytes(n)
 		if i%2 == 0 {
